@@ -282,7 +282,7 @@ public:
 
     if (pi)
     {
-      if (lowerBound_ <= pi->lowerBound_)
+      if (lowerBound_ < pi->lowerBound_)
       {
         lowerBound = pi->lowerBound_;
         inclLowerBound = pi->inclLowerBound_;
@@ -290,10 +290,10 @@ public:
       else
       {
         lowerBound = lowerBound_;
-        inclLowerBound = inclLowerBound_;
+        inclLowerBound = (lowerBound_ == pi->lowerBound_) ? (inclLowerBound_ && pi->inclLowerBound_) : inclLowerBound_;
       }
 
-      if (upperBound_ >= pi->upperBound_)
+      if (upperBound_ > pi->upperBound_)
       {
         upperBound = pi->upperBound_;
         inclUpperBound = pi->inclUpperBound_;
@@ -301,7 +301,7 @@ public:
       else
       {
         upperBound = upperBound_;
-        inclUpperBound = inclUpperBound_;
+        inclUpperBound = (upperBound_ == pi->upperBound_) ? (inclUpperBound_ && pi->inclUpperBound_) : inclUpperBound_;
       }
       return new IntervalConstraint(lowerBound, upperBound, inclLowerBound, inclUpperBound, (precision_ > pi->getPrecision()) ? precision_ : pi->getPrecision());
     }
@@ -322,17 +322,21 @@ public:
     {
       const IntervalConstraint& pi = dynamic_cast<const IntervalConstraint&>(c);
 
-      if (lowerBound_ <= pi.lowerBound_)
+      if (lowerBound_ < pi.lowerBound_)
       {
         lowerBound_ = pi.lowerBound_;
         inclLowerBound_ = pi.inclLowerBound_;
       }
+      else if (lowerBound_ == pi.lowerBound_)
+        inclLowerBound_ = inclLowerBound_ && pi.inclLowerBound_;
 
-      if (upperBound_ >= pi.upperBound_)
+      if (upperBound_ > pi.upperBound_)
       {
         upperBound_ = pi.upperBound_;
         inclUpperBound_ = pi.inclUpperBound_;
       }
+      else if (upperBound_ == pi.upperBound_)
+        inclUpperBound_ = inclUpperBound_ && pi.inclUpperBound_;
       if (pi.getPrecision() > precision_)
         precision_ = pi.getPrecision();
     }
